@@ -34,6 +34,12 @@ CHECKS = {
     text="For every repository schema/WSDL that reads and hand-written sets that hit every emitter, the number N of write calls is counted and a fault is injected at every call index (stride-sampled only for documents above 20000 calls in the quick tier; thorough enumerates all). write_xml must return an I/O error, never Ok, never panic; Interrupted must be retried transparently; short-writing sinks must receive byte-identical output.",
     note="Trusted: std::io::Write::write_all semantics; the corpus is what the repository ships plus the mini sets (a writer reached only by other inputs is not exercised).",
     design="DESIGN.md section 4 C15"),
+ "C16": dict(
+    category="exploration",
+    technique="model-based property testing of call histories: proptest-generated scripts (status x body x transport x credentials per call) against a raw-socket loopback HTTP server that records requests; oracle = scripted reference model of the exchange",
+    text="Over a thousand generated scripts of 1-4 calls drive the helper send function (compiled unmodified from /repo) with probe envelopes against a scripted server that can refuse, close before or after headers, and answer any status/body combination. Per call the recorded traffic (exactly one POST, target, body bytes, Basic credentials iff configured) and the returned Result (value iff 2xx and envelope body, equal to the scripted value; error otherwise) are compared with the script. Failures are shrunk to a minimal script.",
+    note="Trusted: the loopback server and reqwest's HTTP framing. Covers the helper that every generated method forwards to; that generated methods forward client, location and credentials unchanged is checked with compiled generated clients in C05.",
+    design="DESIGN.md section 4 C16"),
  "C17": dict(
     category="exploration",
     technique="property-based scenario testing of the built zeep binary in sandbox directories (generated input sets, damage, cwd, path spelling, output option, pre-existing output, uncreatable targets, file creation order) with a differential oracle against the library's bytes and a before/after comparison of the output file",
